@@ -14,7 +14,7 @@ until they are repaired or listed in known_findings.json; PREDICATES below give 
       (pandas records the index column as {'name': None, 'field_name': '__index_level_0__'}; read_parquet looks the
        index column up by 'name' among the column names, finds None, and does not prepend it to the projection)
 
-  G2  bucket C11/dask/full/index-name-differs/__null_dask_index__  -  an unnamed index comes back named
+  G2  bucket C11/dask/index-name-differs/__null_dask_index__  -  an unnamed index comes back named
         import numpy as np, dask.dataframe as dd, spatialpandas as sp
         from spatialpandas.geometry import PointArray
         from spatialpandas.io import read_parquet_dask
@@ -59,6 +59,7 @@ BUDGET = {'quick': {'shards': 16, 'examples': 2400, 'min_evaluations': 1200},
 
 GEOM_NAMES = ['ga', 'gb', 'gc']
 INDEX_KINDS = ['default', 'named', 'unnamed', 'nonunique', 'hilbert']
+MODES = ('full', 'projection', 'list', 'glob')
 
 
 # ----------------------------------------------------------------------------- known-finding predicates
@@ -169,7 +170,8 @@ def _compare(got, exp, rows, columns, B, ctx):
     for c in want_cols:
         spec = exp['cols'][c]
         if spec[0] == 'geom':
-            if not isinstance(got[c].dtype, GeometryDtype):
+            if not isinstance(got[c].dtype, GeometryDtype) or str(got[c].dtype) != spec[1]:
+                # kind or subtype changed: the stored bytes cannot be decoded under the claimed dtype, nothing more to compare
                 return [(B + [spec[2], 'dtype-differs'], f'column {c}: written {spec[1]} read {got[c].dtype}; {ctx}')]
             g_cols[c] = model.to_canonical(got[c].array)
         else:
@@ -189,8 +191,6 @@ def _compare(got, exp, rows, columns, B, ctx):
     for c in want_cols:
         spec = exp['cols'][c]
         if spec[0] == 'geom':
-            if str(got[c].dtype) != spec[1]:
-                fails.append((B + [spec[2], 'dtype-differs'], f'column {c}: written {spec[1]} read {got[c].dtype}; {ctx}'))
             if g_cols[c] != e_cols[c]:
                 i = next(i for i, (a, b) in enumerate(zip(g_cols[c], e_cols[c])) if a != b)
                 what = 'missing-not-kept' if (g_cols[c][i] is None) != (e_cols[c][i] is None) else 'elements-differ'
@@ -201,7 +201,8 @@ def _compare(got, exp, rows, columns, B, ctx):
     if g_index != e_index:
         fails.append((B + ['index-values-differ'], f'written {e_index} read {g_index}; {ctx}'))
     if got.index.name != exp['index_name']:
-        fails.append((B + ['index-name-differs', str(got.index.name)], f'written {exp["index_name"]!r} read {got.index.name!r}; {ctx}'))
+        # the index name does not depend on how the dataset is read: no read mode in this bucket
+        fails.append((B[:2] + ['index-name-differs', str(got.index.name)], f'written {exp["index_name"]!r} read {got.index.name!r}; {ctx}'))
     return fails
 
 
@@ -209,7 +210,7 @@ def _dedup(fails, seen):
     """the same deviation observed again through a later read mode is the same root cause: keep the first"""
     out = []
     for b, d in fails:
-        key = tuple(b[3:])
+        key = tuple(x for x in b[2:] if x not in MODES)
         if key in seen:
             continue
         seen.add(key)
